@@ -863,7 +863,40 @@ def run(ck):
     if [o for o in ck.broken() if not o.get("explained")]:
         search(ck, fails)
         c05each.search(ck, ck.extra["each_consts"], each_fails)
+        if each_fails and not any(k.startswith(("each:", "real-other:")) for k in [c["key"] for c in ck.counterexamples]):
+            search_real_each(ck)
         c05idx.search_idx(ck, idx_exe, idx_bad)
+
+
+def search_real_each(ck):
+    """the scripted parallel_for_each traces left the model and the scripted monitors found nothing: many real-thread runs of parallel_for_each
+    (+feeder) over the three iterator categories, looking for an item that is not processed exactly once before the call returns"""
+    try:
+        libdir = real_libdir(ck)
+        exe = cxx_build("C05", "real", [H + "real.cpp"], flags=["-O1", "-g", "-pthread"], libs=["-L" + libdir, "-ltbb", "-Wl,-rpath," + libdir])
+    except BuildError as e:
+        log("search: real harness does not build: %s" % str(e)[:200])
+        return
+    rng = ck.rng
+    log("parallel_for_each: searching with real threads")
+    for batch in range(8 if ck.tier == "quick" else 40):
+        ol = ["foreach2 %d %d %d %s %d %d" % (rng.choice([1, 2, 3, 4, 5, 7, 8, 9, 17, 100]), rng.choice([0, 1, 2, 3, 3]), rng.randrange(1, 4), "ffi r"[i % 5].strip() or "f",
+                                           rng.randrange(2, 17), rng.randrange(1, 1 << 40)) for i in range(120)]
+        rc, out, err = run_limited([exe, "60"], input="\n".join(ol) + "\n", timeout=900, mem_kb=16000000)
+        oo = out.split("\n")[:-1]
+        bad = None
+        if rc != 0 or len(oo) != len(ol):
+            bad = (ol[min(len(oo), len(ol) - 1)], "rc=%d %s" % (rc, err[-200:]))
+        else:
+            for l, o in zip(ol, oo):
+                f = dict(kv.split("=", 1) for kv in o.split()[1:]) if o != "bad-op" else {"bad": "bad-op"}
+                if f.get("bad") != "-" or (o.startswith("F2 ") and (f["dead"] != "0" or f["live"] != "0")):
+                    bad = (l, o)
+                    break
+        if bad:
+            ck.counterexample("real-other:" + bad[0].replace(" ", "="), "%s -> %s (found by the real-thread search after the scripted traces left the model)" % bad,
+                              {"engine": "E-REAL", "harness": H + "real.cpp", "stdin": bad[0] + "\n", "monitor": "other"})
+            return
 
 
 def replay(ck, obj):
